@@ -105,6 +105,12 @@ func (p c19) Gen(r *simhook.Rand, tier string, idx int) harness.Scenario {
 		rs := &RedisScenario{Meta: harness.GenMeta(r, 0)}
 		rs.Class = "e2e"
 		rs.Env = world.RedisCfg{Masters: 1 + r.Intn(3)}
+		busy := r.Chance(1, 2)
+		if busy {
+			// other users of the proxy's pooled buffers (the compression filter) work right next to the HOTKEY handler
+			rs.Env.Compression = &world.Compression{Enable: true, Threshold: 16}
+			rs.Class = "e2e-busy"
+		}
 		nkeys := 2 + r.Intn(70)
 		for ci := 0; ci < 1+r.Intn(3); ci++ {
 			cs := ConnScript{Name: fmt.Sprintf("c%d", ci)}
@@ -115,6 +121,14 @@ func (p c19) Gen(r *simhook.Rand, tier string, idx int) harness.Scenario {
 				}
 				rq := world.Request{Args: world.Bins("GET", fmt.Sprintf("hk%d", k))}
 				switch r.Intn(12) {
+				case 2, 3:
+					if busy {
+						rq = world.Request{Args: world.Bins("HOTKEY")}
+					}
+				case 4, 5, 6:
+					if busy {
+						rq = world.Request{Args: append(world.Bins("SET", fmt.Sprintf("hk%d", k)), world.Bin(strings.Repeat(fmt.Sprintf("v%d.", i), 40+r.Intn(60))))}
+					}
 				case 0:
 					rq = world.Request{Args: world.Bins("HOTKEY"), Wait: true}
 				case 1:
